@@ -1,15 +1,350 @@
-(* C18 - all output channels report the same diagnostics, well-formed and ordered.  PLACEHOLDER statements are
-   added by Proofs/PrintProofs.v when installed; until then the order theorem of the shared output stage. *)
+(* C18 - all output channels report the same diagnostics, well-formed and ordered: every diagnostic has a
+   non-empty title and a severity that is fixed for its kind; each rendered source excerpt shows the line the
+   diagnostic refers to with the marker under the reported columns.
+   Statements only; proofs in Proofs/PrintProofs.v; vocabulary in Spec/PrintSpec.v. *)
 From Coq Require Import List Permutation Sorted.
-From RV.Model Require Import Base Lexer Parser Reader Cfg Lints Output Printer.
-From RV.Proofs Require Import OutputProofs.
+From RV.Model Require Import Base I32 Imm Lexer Parser Reader Cfg Lints Serde Output Printer.
+From RV.Spec Require Import PrintSpec.
+From RV.Proofs Require Import OutputProofs PrintProofs.
 Import ListNotations.
+Open Scope N_scope.
 
-(* the items handed to every printer are the same list, ordered by (file name, range) *)
-Definition C18_order_statement : Prop :=
-  forall (A : Type) (key : A -> okey) (l : list A),
-    Permutation l (sort_items key l) /\ StronglySorted (le key) (sort_items key l).
-Theorem C18_order : C18_order_statement.
-Proof. intros A key l. split; [apply sort_perm|apply sort_sorted]. Qed.
-Check C18_order : C18_order_statement.
-Print Assumptions C18_order.
+(* ================================================================================================ *)
+(* (1) KIND TABLE.  Every diagnostic kind (lint code, parse error, CFG error) has a non-empty title; the   *)
+(* severity of a lint is a function of its code alone (`lint_severity : lintcode -> severity`; the items    *)
+(* of parse and CFG errors are errors by construction); the list of codes is complete; every severity has  *)
+(* a non-empty name.                                                                                       *)
+(* ================================================================================================ *)
+Definition C18_kind_table_statement : Prop :=
+  (forall c, lint_title c <> []) /\
+  (forall e, parse_error_title e <> []) /\
+  (forall e, cfg_error_title e <> []) /\
+  (forall c, In c all_lintcodes) /\
+  (forall l1 l2 : lint, lcode l1 = lcode l2 -> lint_severity (lcode l1) = lint_severity (lcode l2)) /\
+  (forall s, level_name s <> []).
+Theorem C18_kind_table : C18_kind_table_statement.
+Proof.
+  exact (conj lint_title_nonempty (conj parse_error_title_nonempty (conj cfg_error_title_nonempty
+        (conj all_lintcodes_complete (conj lint_severity_of_code level_name_nonempty))))).
+Qed.
+Check C18_kind_table : C18_kind_table_statement.
+Print Assumptions C18_kind_table.
+
+(* the table itself: code, severity, "title is not empty" *)
+Example C18_kind_table_example :
+  map (fun c => (c, lint_severity c, match lint_title c with [] => false | _ => true end)) all_lintcodes
+  = [(LDeadAssignment, SevWarning, true); (LSaveToZero, SevWarning, true); (LInvalidUseAfterCall, SevError, true);
+     (LInvalidUseBeforeAssignment, SevError, true); (LInvalidJumpToFunction, SevWarning, true);
+     (LFirstInstructionIsFunction, SevWarning, true); (LUnknownEcall, SevError, true);
+     (LUnreachableCode, SevWarning, true); (LInvalidSegment, SevWarning, true); (LUnknownStack, SevError, true);
+     (LInvalidStackPointer, SevError, true); (LInvalidStackPosition, SevError, true);
+     (LInvalidStackOffsetUsage, SevError, true); (LOverwriteCalleeSavedRegister, SevError, true);
+     (LLostRegisterValue, SevWarning, true); (LNodeInManyFunctions, SevWarning, true)].
+Proof. vm_compute. reflexivity. Qed.
+
+(* ================================================================================================ *)
+(* (2) EXCERPT EXACT.                                                                                  *)
+(* ================================================================================================ *)
+(* For a line `text`, line number `ln`, columns start <= end_ on the line and after its indentation: the
+   excerpt is three lines - a gutter line, the one-based line number with the trimmed source line, and the
+   marker line; the marker is as long as the distance from the first shown column to end_; under the columns
+   before `start` it repeats the white space of the source (tabs are kept) and has a blank under anything else;
+   under columns start..end_ it has carets. *)
+Definition C18_excerpt_exact_statement : Prop :=
+  forall (text : str) (ln : N) (start end_ : nat),
+    let fnw := first_non_ws text in
+    (fnw <= start)%nat -> (start <= end_)%nat -> (end_ < length text)%nat ->
+    exists marker : str,
+      format_region text ln start end_ =
+        (let lno := show_N (ln + 1) in
+         let spc := repeat c_space (S (length lno)) in
+         spc ++ «" |"» ++ [c_nl] ++ [c_space] ++ lno ++ «" | "» ++ trim text ++ [c_nl]
+         ++ spc ++ «" | "» ++ marker ++ [c_nl]) /\
+      length marker = (S end_ - fnw)%nat /\
+      (forall j d, (fnw <= j < start)%nat ->
+         nth (j - fnw) marker d = (if is_whitespace (nth j text d) then nth j text d else c_space)) /\
+      (forall j d, (start <= j <= end_)%nat -> nth (j - fnw) marker d = c_caret).
+Theorem C18_excerpt_exact : C18_excerpt_exact_statement.
+Proof. intros text ln start end_ fnw H1 H2 H3. apply excerpt_exact; auto. apply PeanoNat.Nat.lt_le_incl. eapply PeanoNat.Nat.le_lt_trans; eassumption. Qed.
+Check C18_excerpt_exact : C18_excerpt_exact_statement.
+Print Assumptions C18_excerpt_exact.
+
+(* The same with the weaker hypothesis that only the START column is on the line or just behind its end
+   (the end column may lie beyond the end of the line: the carets then run past it). *)
+Definition C18_excerpt_general_statement : Prop :=
+  forall (text : str) (ln : N) (start end_ : nat),
+    let fnw := first_non_ws text in
+    (fnw <= start)%nat -> (start <= end_)%nat -> (start <= length text)%nat ->
+    exists marker : str,
+      format_region text ln start end_ = excerpt_with text ln marker /\
+      length marker = (S end_ - fnw)%nat /\
+      (forall j d, (fnw <= j < start)%nat ->
+         nth (j - fnw) marker d = (if is_whitespace (nth j text d) then nth j text d else c_space)) /\
+      (forall j d, (start <= j <= end_)%nat -> nth (j - fnw) marker d = c_caret).
+Theorem C18_excerpt_general : C18_excerpt_general_statement.
+Proof. intros text ln start end_ fnw. apply excerpt_exact. Qed.
+Check C18_excerpt_general : C18_excerpt_general_statement.
+Print Assumptions C18_excerpt_general.
+
+(* The shown source line.  If the line is not all white space: fnw is the column of its first character that
+   is not white space; the shown line `trim text` is `skipn fnw text` with its trailing white space removed
+   (it ends with a character that is not white space, what was cut is white space); so position j - fnw of the
+   shown line is column j of the source, and every column that is not white space is shown.  Together with
+   C18_excerpt_exact: the carets are exactly under the reported columns. *)
+Definition C18_excerpt_source_statement : Prop :=
+  forall text : str, all_ws text = false ->
+    let fnw := first_non_ws text in
+    (fnw < length text)%nat /\
+    (forall j d, (j < fnw)%nat -> is_whitespace (nth j text d) = true) /\
+    (forall d, is_whitespace (nth fnw text d) = false) /\
+    trim text = trim_end (skipn fnw text) /\
+    (exists w, skipn fnw text = trim text ++ w /\ all_ws w = true) /\
+    (exists t c, trim text = t ++ [c] /\ is_whitespace c = false) /\
+    (forall j d, (fnw <= j < fnw + length (trim text))%nat -> nth (j - fnw) (trim text) d = nth j text d) /\
+    (forall j d, (fnw <= j < length text)%nat -> is_whitespace (nth j text d) = false -> (j < fnw + length (trim text))%nat).
+Theorem C18_excerpt_source : C18_excerpt_source_statement.
+Proof. exact shown_line. Qed.
+Check C18_excerpt_source : C18_excerpt_source_statement.
+Print Assumptions C18_excerpt_source.
+
+(* a line of white space only: shown as the empty line, fnw = 0 *)
+Definition C18_excerpt_blank_statement : Prop :=
+  forall text : str, all_ws text = true -> first_non_ws text = 0%nat /\ trim text = [].
+Theorem C18_excerpt_blank : C18_excerpt_blank_statement.
+Proof. exact fnw_all_ws. Qed.
+Check C18_excerpt_blank : C18_excerpt_blank_statement.
+Print Assumptions C18_excerpt_blank.
+
+(* Outside the hypothesis (always: format_region = excerpt_with .. (marker_of ..), no panic in the model):
+   - start at or beyond the end of the line: the whole blanked line, then the carets appended at its end
+     (at shown position length text - fnw, not start - fnw);
+   - start inside the indentation: the carets begin at the first shown column (under column fnw, not start);
+   - end_ < start: no caret at all. *)
+Definition C18_excerpt_outside_statement : Prop :=
+  forall (text : str) (ln : N) (start end_ : nat),
+    format_region text ln start end_ = excerpt_with text ln (marker_of text start end_) /\
+    ((length text <= start)%nat ->
+       marker_of text start end_ = map blank (skipn (first_non_ws text) text) ++ repeat c_caret (S end_ - start)) /\
+    ((start <= first_non_ws text)%nat -> marker_of text start end_ = repeat c_caret (S end_ - start)) /\
+    ((end_ < start)%nat ->
+       marker_of text start end_ = firstn (start - first_non_ws text) (map blank (skipn (first_non_ws text) text))).
+Theorem C18_excerpt_outside : C18_excerpt_outside_statement.
+Proof.
+  intros text ln start end_. split; [apply format_region_eq|]. split; [apply marker_beyond_end|].
+  split; [apply marker_in_indentation|apply marker_reversed_range].
+Qed.
+Check C18_excerpt_outside : C18_excerpt_outside_statement.
+Print Assumptions C18_excerpt_outside.
+
+(* The excerpt of a pretty block is that of the line the range starts on: the lines of the file's text are its
+   unique split at newlines (joining them with newlines gives the text back, no line contains a newline), the
+   block is header ++ excerpt ++ blank line, and the excerpt is format_region of line number `line` with the
+   start column and end column of the range. *)
+Definition C18_excerpt_line_statement : Prop :=
+  (forall t : str, join [c_nl] (split_lines t []) = t /\ Forall no_nl (split_lines t [])) /\
+  (forall p, format_item p = header_of (fields p) ++ excerpt_of p ++ [c_nl]) /\
+  (forall p t region,
+     ptext p = Some t -> nth_error (split_lines t []) (N.to_nat (line (rstart (prange p)))) = Some region ->
+     excerpt_of p = format_region region (line (rstart (prange p)))
+                      (N.to_nat (column (rstart (prange p)))) (N.to_nat (column (rend (prange p))))).
+Theorem C18_excerpt_line : C18_excerpt_line_statement.
+Proof. exact (conj lines_of_text (conj format_item_eq excerpt_of_line)). Qed.
+Check C18_excerpt_line : C18_excerpt_line_statement.
+Print Assumptions C18_excerpt_line.
+
+(* a line indented with a tab and two blanks, a tab inside; the diagnostic is on columns 6..7 ("a0") *)
+Definition ex_line : str := [c_tab] ++ «"  lw"» ++ [c_tab] ++ «"a0, 4(sp)  "».
+Example C18_excerpt_example :
+  (first_non_ws ex_line <= 6 /\ 6 <= 7 /\ 7 < length ex_line)%nat /\ all_ws ex_line = false /\
+  format_region ex_line 6 6 7 =
+    «"   |"» ++ [c_nl] ++
+    «" 7 | lw"» ++ [c_tab] ++ «"a0, 4(sp)"» ++ [c_nl] ++
+    «"   |   "» ++ [c_tab] ++ «"^^"» ++ [c_nl] /\
+  (* beyond the end of the line: carets appended after the blanked line *)
+  marker_of ex_line 20 22 = «"  "» ++ [c_tab] ++ «"           ^^^"» /\
+  (* inside the indentation: carets at the first shown column *)
+  marker_of ex_line 1 2 = «"^^"».
+Proof. split; [vm_compute; lia|]. vm_compute. repeat split; reflexivity. Qed.
+
+(* ================================================================================================ *)
+(* (3) ORDER IS KEPT BY THE FILE FILTER; THE COUNTER.                                                  *)
+(* ================================================================================================ *)
+Definition C18_filter_sorted_statement : Prop :=
+  forall (A : Type) (key : A -> okey) (f : A -> bool) (l : list A),
+    StronglySorted (le key) l -> StronglySorted (le key) (filter f l).
+Theorem C18_filter_sorted : C18_filter_sorted_statement.
+Proof. intros A key f l. apply StronglySorted_filter. Qed.
+Check C18_filter_sorted : C18_filter_sorted_statement.
+Print Assumptions C18_filter_sorted.
+
+(* With the items sorted by (file name, range) - the output sort of C10 - what display_pretty shows is still
+   sorted, and is a permutation of the visible items of the unsorted list; in terms of positions: of two shown
+   items the earlier one never has the greater file name, and if they are in the same file the earlier one
+   starts first (or at the same offset and ends first or at the same offset). *)
+Definition C18_visible_sorted_statement : Prop :=
+  forall (hb all : bool) (items : list pitem),
+    let vis := filter (shown hb all) (sort_items pkey items) in
+    StronglySorted (le pkey) vis /\
+    Permutation (filter (shown hb all) items) vis /\
+    forall d i j, (i < j < length vis)%nat ->
+      let x := nth i vis d in let y := nth j vis d in
+      ostr_cmp (pfile x) (pfile y) <> Gt /\
+      (pfile x = pfile y ->
+         raw (rstart (prange x)) < raw (rstart (prange y)) \/
+         (raw (rstart (prange x)) = raw (rstart (prange y)) /\ raw (rend (prange x)) <= raw (rend (prange y)))).
+Theorem C18_visible_sorted : C18_visible_sorted_statement.
+Proof.
+  intros hb all items vis. destruct (visible_sorted pkey (shown hb all) items) as [S P].
+  split; [exact S|]. split; [exact P|]. intros d i j H. apply (visible_by_position hb all items d i j H).
+Qed.
+Check C18_visible_sorted : C18_visible_sorted_statement.
+Print Assumptions C18_visible_sorted.
+
+(* display_pretty prints the visible items in order, then the counter line for the number of hidden items
+   (nothing when there is none); with --all-files, or without a base file, nothing is hidden. *)
+Definition C18_display_pretty_statement : Prop :=
+  forall (compact all hb : bool) (items : list pitem),
+    let vis := filter (shown hb all) items in
+    let hidden := filter (fun p => negb (shown hb all p)) items in
+    display_pretty compact all hb items = concat (map (fmt_of compact) vis) ++ counter_line (length items - length vis) /\
+    (length items - length vis = length hidden)%nat /\
+    (counter_line (length hidden) = [] <-> hidden = []) /\
+    (all = true \/ hb = false -> display_pretty compact all hb items = concat (map (fmt_of compact) items)).
+Theorem C18_display_pretty : C18_display_pretty_statement.
+Proof.
+  intros compact all hb items vis hidden.
+  split; [apply display_pretty_eq|]. split; [apply hidden_count|]. split; [|apply display_pretty_all].
+  rewrite counter_line_nil. apply length_zero_iff_nil.
+Qed.
+Check C18_display_pretty : C18_display_pretty_statement.
+Print Assumptions C18_display_pretty.
+
+Definition ex_p1 : pitem :=
+  mkp SevWarning «"Unused value"» [] (Some «"a.s"») (Some («"main:"» ++ [c_nl] ++ ex_line ++ [c_nl])) true
+      (mkrange (mkpos 1 6 12) (mkpos 1 7 13)).
+Definition ex_p2 : pitem :=
+  mkp SevError «"Unknown ecall"» [] (Some «"b.s"») None false (mkrange (mkpos 3 4 40) (mkpos 3 8 44)).
+Definition ex_p3 : pitem :=
+  mkp SevError «"Invalid stack pointer"» [] (Some «"a.s"») None true (mkrange (mkpos 0 0 0) (mkpos 0 4 4)).
+Example C18_display_example :
+  sort_items pkey [ex_p2; ex_p1; ex_p3] = [ex_p3; ex_p1; ex_p2] /\
+  filter (shown true false) [ex_p3; ex_p1; ex_p2] = [ex_p3; ex_p1] /\
+  display_pretty true false true [ex_p3; ex_p1; ex_p2] =
+    «"Error: Invalid stack pointer in a.s at 1 1:5"» ++ [c_nl] ++
+    «"Warning: Unused value in a.s at 2 7:8"» ++ [c_nl] ++
+    «"1 diagnostic found in other files. To see all errors, run with the `--all-files` option."» ++ [c_nl] /\
+  display_pretty false true true [ex_p1] =
+    «"Warning: Unused value"» ++ [c_nl] ++ «" in file: a.s"» ++ [c_nl] ++
+    «"   |"» ++ [c_nl] ++
+    «" 2 | lw"» ++ [c_tab] ++ «"a0, 4(sp)"» ++ [c_nl] ++
+    «"   |   "» ++ [c_tab] ++ «"^^"» ++ [c_nl] ++ [c_nl].
+Proof. vm_compute. repeat split; reflexivity. Qed.
+
+(* ================================================================================================ *)
+(* (4) CHANNEL AGREEMENT.                                                                              *)
+(* ================================================================================================ *)
+(* The compact line and the header of the pretty block are functions of `fields`; the JSON record carries the
+   level, title and range of `fields` (and the canonical file name, the description, the raw offsets). *)
+Definition C18_channels_agree_statement : Prop :=
+  (forall p, format_item_compact p = compact_of (fields p)) /\
+  (forall p q, fields p = fields q -> format_item_compact p = format_item_compact q) /\
+  (forall p, format_item p = header_of (fields p) ++ excerpt_of p ++ [c_nl]) /\
+  (forall p q, fields p = fields q ->
+     exists h, format_item p = h ++ excerpt_of p ++ [c_nl] /\ format_item q = h ++ excerpt_of q ++ [c_nl] /\
+               h = header_of (fields p)) /\
+  (forall canon p,
+     jfields (wrap_item canon p) = fields_nopath (fields p) /\
+     jfile (wrap_item canon p) = option_map canon (pfile p) /\ jdesc (wrap_item canon p) = pdesc p) /\
+  (forall canon items,
+     map jfields (display_json canon items) = map (fun p => fields_nopath (fields p)) items).
+Theorem C18_channels_agree : C18_channels_agree_statement.
+Proof.
+  exact (conj compact_eq (conj compact_fields (conj format_item_eq (conj header_fields
+        (conj wrap_item_fields display_json_fields))))).
+Qed.
+Check C18_channels_agree : C18_channels_agree_statement.
+Print Assumptions C18_channels_agree.
+
+(* DECODING THE COMPACT LINE.  `read_compact` (Spec/PrintSpec.v) reads a line from its end: newline, digits,
+   ':', digits, ' ', digits, " at ", and the level name in front.  Without any hypothesis on title and path it
+   recovers the severity, the text "title in path", and the zero-based line, column and end column; hence the
+   compact line determines them, and determines all of `fields` once the path (or the title) is known. *)
+Definition C18_compact_decode_statement : Prop :=
+  (forall p, read_compact (format_item_compact p) = Some (compact_core p)) /\
+  (forall p q, format_item_compact p = format_item_compact q -> psev p = psev q) /\
+  (forall p q, format_item_compact p = format_item_compact q -> compact_core p = compact_core q) /\
+  (forall p q, format_item_compact p = format_item_compact q -> path_of p = path_of q -> fields p = fields q) /\
+  (forall p q, format_item_compact p = format_item_compact q -> ptitle p = ptitle q -> fields p = fields q).
+Theorem C18_compact_decode : C18_compact_decode_statement.
+Proof.
+  exact (conj read_compact_ok (conj compact_severity (conj compact_inj (conj compact_inj_fields compact_inj_fields_title)))).
+Qed.
+Check C18_compact_decode : C18_compact_decode_statement.
+Print Assumptions C18_compact_decode.
+
+(* The split of "title in path" is NOT determined by the compact line (the format is ambiguous when a title or
+   a path contains " in "): two items with different fields and the same compact line. *)
+Example C18_compact_ambiguous :
+  let p := mkp SevError «"a in b"» [] (Some «"c"») None true range0 in
+  let q := mkp SevError «"a"» [] (Some «"b in c"») None true range0 in
+  format_item_compact p = format_item_compact q /\ fields p <> fields q.
+Proof. split; [vm_compute; reflexivity|]. vm_compute. intros H. discriminate H. Qed.
+
+(* When title and path contain no newline the compact rendering is ONE line, ending with " at L C:E" for the
+   one-based L, C, E of `fields`. *)
+Definition C18_compact_line_statement : Prop :=
+  forall p, no_nl (ptitle p) -> no_nl (path_of p) ->
+    exists body, format_item_compact p = body ++ [c_nl] /\ no_nl body /\
+      body = (level_name (psev p) ++ «": "» ++ ptitle p ++ «" in "» ++ path_of p)
+             ++ «" at "» ++ show_N (line (rstart (prange p)) + 1) ++ «" "» ++ show_N (column (rstart (prange p)) + 1)
+             ++ «":"» ++ show_N (column (rend (prange p)) + 1).
+Theorem C18_compact_line : C18_compact_line_statement.
+Proof. exact compact_one_line. Qed.
+Check C18_compact_line : C18_compact_line_statement.
+Print Assumptions C18_compact_line.
+
+(* THE WHOLE COMPACT OUTPUT, read back line by line (`read_output`: split at newlines, read every line): if no
+   title and no path contains a newline, it yields exactly the visible items' (severity, "title in path", line,
+   column, end column), in order, followed by one unreadable line (the counter) iff some item is hidden. *)
+Definition C18_compact_output_statement : Prop :=
+  forall (all hb : bool) (items : list pitem),
+    Forall (fun p => no_nl (ptitle p) /\ no_nl (path_of p)) items ->
+    read_output (display_pretty true all hb items)
+    = map (fun p => Some (compact_core p)) (filter (shown hb all) items)
+      ++ (if Nat.eqb (length (filter (fun p => negb (shown hb all p)) items)) 0 then [] else [None]).
+Theorem C18_compact_output : C18_compact_output_statement.
+Proof. exact read_output_compact. Qed.
+Check C18_compact_output : C18_compact_output_statement.
+Print Assumptions C18_compact_output.
+
+(* the hypothesis is needed (D29): a newline in a title breaks the line structure *)
+Example C18_compact_output_newline :
+  let p := mkp SevError («"found LABEL(x)"» ++ [c_nl]) [] (Some «"a.s"») None true range0 in
+  read_output (display_pretty true true true [p]) = [None; None].
+Proof. vm_compute. reflexivity. Qed.
+
+(* THE PRETTY BLOCK determines severity, title and path (and the excerpt) when titles and paths contain no
+   newline: its first line is "{level}: {title}", its second " in file: {path}". *)
+Definition C18_pretty_decode_statement : Prop :=
+  forall p q, no_nl (ptitle p) -> no_nl (ptitle q) -> no_nl (path_of p) -> no_nl (path_of q) ->
+    format_item p = format_item q ->
+    psev p = psev q /\ ptitle p = ptitle q /\ path_of p = path_of q /\ excerpt_of p = excerpt_of q.
+Theorem C18_pretty_decode : C18_pretty_decode_statement.
+Proof. exact pretty_inj. Qed.
+Check C18_pretty_decode : C18_pretty_decode_statement.
+Print Assumptions C18_pretty_decode.
+
+Example C18_channels_example :
+  no_nl (ptitle ex_p1) /\ no_nl (path_of ex_p1) /\
+  fields ex_p1 = («"Warning"», «"Unused value"», «"a.s"», 1, 6, 7) /\
+  read_compact (format_item_compact ex_p1) = Some (SevWarning, «"Unused value in a.s"», 1, 6, 7) /\
+  jfields (wrap_item (fun s => «"/abs/"» ++ s) ex_p1) = («"Warning"», «"Unused value"», 1, 6, 7) /\
+  jfile (wrap_item (fun s => «"/abs/"» ++ s) ex_p1) = Some «"/abs/a.s"» /\
+  read_output (display_pretty true false true [ex_p3; ex_p1; ex_p2])
+  = [Some (compact_core ex_p3); Some (compact_core ex_p1); None] /\
+  read_output (display_pretty true true true [ex_p3; ex_p1; ex_p2])
+  = [Some (compact_core ex_p3); Some (compact_core ex_p1); Some (compact_core ex_p2)].
+Proof.
+  split; [apply no_nl_dec; reflexivity|]. split; [apply no_nl_dec; reflexivity|].
+  vm_compute. repeat split; reflexivity.
+Qed.
